@@ -395,7 +395,7 @@ class Prov:
             inner = self.operand(rv['op'], b, i, depth)
             if 'Unsize' in rv['kind'] or rv['kind'].startswith('Transmute') and False:
                 return inner
-            return E('cast', rv['kind'], [inner], ty=rv['ty'])
+            return E('cast', rv['kind'], [inner], ty=rv['ty'], c={'from_ty': rv.get('from_ty')})
         if k == 'binop':
             return E('binop', rv['op'], [self.operand(rv['a'], b, i, depth), self.operand(rv['b'], b, i, depth)], site=(b, i), ty=rv.get('ty'))
         if k == 'unop':
